@@ -238,10 +238,10 @@ def make_t7(opname, op, tier):
             elif TU.has_tyvar(d):
                 bad.append(f"ColFn({opname}, {_fmt(sig)}).dtype() = {d} contains an unresolved type variable")
             else:
-                want_const = op.ftype == H.Ftype.ELEMENT_WISE and all(T.is_const(t) for t in sig)
+                want_const = op.ftype == H.Ftype.ELEMENT_WISE and len(sig) > 0 and all(T.is_const(t) for t in sig)  # a function without arguments (rand) yields a different value per row: not a constant
                 if T.is_const(d) != want_const:
                     bad.append(f"ColFn({opname}, {_fmt(sig)}).dtype() = {d}: const-ness should be {want_const}")
-        return _enum_outcome(f"ColFn({opname}, args).dtype() is a Tyvar-free Dtype or raises DataTypeError; const iff element-wise and all args const", n, bad)
+        return _enum_outcome(f"ColFn({opname}, args).dtype() is a Tyvar-free Dtype or raises DataTypeError; const iff element-wise, at least one argument and all arguments const", n, bad)
 
     return run
 
